@@ -36,7 +36,7 @@ skein_matrix!(
 
 pub fn run(tier: &str, config: &str) -> Report {
     let mut rep = Report::new("C05", tier, config);
-    rep.rule = "3 state sizes x 25 output sizes N in {1,2,7,8,9,16,20,28,31,32,33,48,63,64,65,96,127,128,129,160,255,256,257,300,512} bytes x every message length 0..=4B+2 (thorough 9B+2) of counting bytes, plus every one-hot message of lengths B and B+1 for N=32; compared with vref::skein (UBI over the model's own Threefish, 128-bit tweak integer); distinct_nontrivial = distinct expected digests".into();
+    rep.rule = "3 state sizes x 25 output sizes N in {1,2,7,8,9,16,20,28,31,32,33,48,63,64,65,96,127,128,129,160,255,256,257,300,512} bytes x every message length 0..=4B+2 (thorough 9B+2) of counting bytes, plus every one-hot message of lengths B and B+1 for N=32 and messages of 1000, 4097, 65537, 16B, 16B+1 bytes; compared with vref::skein (UBI over the model's own Threefish, 128-bit tweak integer); distinct_nontrivial = distinct expected digests".into();
     all(&mut rep, tier);
     // one-hot messages (every message bit of a full block and of the byte after it)
     fn onehot<H: HK>(rep: &mut Report) {
@@ -49,6 +49,15 @@ pub fn run(tier: &str, config: &str) -> Report {
         }
         sweep::<H>(rep, "C05", v);
     }
+    // long messages (many blocks in one update call)
+    fn long<H: HK>(rep: &mut Report) {
+        sweep::<H>(rep, "C05", vec![Msg::Pat(1, 1000), Msg::Pat(1, 4097), Msg::Pat(1, 65537), Msg::Pat(2, 16 * H::BLOCK), Msg::Pat(0, 16 * H::BLOCK + 1)]);
+    }
+    long::<kinds::n32::K256>(&mut rep);
+    long::<kinds::n32::K512>(&mut rep);
+    long::<kinds::n32::K1024>(&mut rep);
+    long::<kinds::n20::K512>(&mut rep);
+    long::<kinds::n300::K256>(&mut rep);
     onehot::<kinds::n32::K256>(&mut rep);
     onehot::<kinds::n32::K512>(&mut rep);
     onehot::<kinds::n32::K1024>(&mut rep);
